@@ -259,6 +259,7 @@ func (s *session) launch(pl *reqPlan) *request {
 	s.inflight[pi.ID] = append(s.inflight[pi.ID], rq)
 	rq.Arrival = s.now()
 	rq.entry = s.stamp()
+	rq.st.in.eofData = rq.ID%2 == 1 // every other request arrives over a stream that returns its last bytes with EOF
 	s.mu.Unlock()
 	s.wg.Add(2)
 	go func() {
@@ -395,7 +396,17 @@ func (s *session) runClient(rq *request) {
 				continue
 			}
 			writes := pl.DD.build(m.GetDialDataRequest().GetNumBytes())
-			for _, w := range writes {
+			for wi, w := range writes {
+				if in.eofData && pl.DD.End == "close" && wi == len(writes)-1 {
+					// FIN travels with the last bytes: the server's read that gets them also gets EOF
+					if err := in.writeAndClose(w.b); err != nil {
+						break
+					}
+					rq.cmu.Lock()
+					rq.ddRawSent += int64(len(w.b))
+					rq.cmu.Unlock()
+					break
+				}
 				if err := in.write(w.b); err != nil {
 					break
 				}
